@@ -52,21 +52,30 @@ def classes(seq):
     return [seen.setdefault(x, len(seen)) for x in seq]
 
 
-def make_layer(case, cn2=None, grid=None, vel=None):
+def make_layer(case, cn2=None, grid=None, vel=None, L0=None):
     import hcipy
     g = grid if grid is not None else mkgrid(case['nx'], case['ny'], case['dx'], case['dy'])
     v = np.array(case['vel'] if vel is None else vel, dtype=float)
     c = case['cn2'] if cn2 is None else cn2
+    l0 = case['L0'] if L0 is None else L0
     if case['kind'] == 'finite':
-        return hcipy.FiniteAtmosphericLayer(g, c, case['L0'], v, seed=case['seed'])
-    return hcipy.InfiniteAtmosphericLayer(g, c, case['L0'], v, use_interpolation=bool(case['interp']), seed=case['seed'])
+        return hcipy.FiniteAtmosphericLayer(g, c, l0, v, seed=case['seed'])
+    return hcipy.InfiniteAtmosphericLayer(g, c, l0, v, use_interpolation=bool(case['interp']), seed=case['seed'])
 
 
 # ---------------------------------------------------------------------------------------------
 # the real code: run one history, record observations after every operation
 
-def run_layer(case, layer):
-    """ops: ['evolve', t] | ['sett', t] | ['reset', indep] | ['read', wavelength]"""
+SET_OPS = ('setcn2', 'setcn2m', 'setl0', 'setvel')
+
+
+def run_layer(case, layer, k=1.0):
+    """ops: ['evolve', t] | ['sett', t] | ['reset', indep] | ['read', wavelength] |
+    ['setcn2', c] | ['setcn2m', total] (through MultiLayerAtmosphere.Cn_squared) | ['setvel', [vx, vy]] |
+    ['setl0', l, route] with route 'L0' (layer.L0 = l), 'outer_scale' (layer.outer_scale = l) or 'multi'
+    (MultiLayerAtmosphere.outer_scale = l).
+    `k`: this is the twin layer whose strength is k^2 times the strength of the case."""
+    import hcipy
     ext = []
     if case['kind'] == 'infinite':
         orig_extrude = layer._extrude
@@ -75,6 +84,7 @@ def run_layer(case, layer):
             ext.append(where)
             return orig_extrude(where)
         layer._extrude = rec
+    atm = None
     obs = []
     for op in case['ops']:
         o = {'op': op, 'status': 'ok'}
@@ -89,6 +99,26 @@ def run_layer(case, layer):
             elif op[0] == 'read':
                 o['phase'] = np.array(layer.phase_for(op[1]).shaped, dtype=float)
                 o['phase1'] = np.array(layer.phase_for(1).shaped, dtype=float)
+            elif op[0] == 'setcn2':
+                layer.Cn_squared = op[1] * k * k
+            elif op[0] == 'setcn2m':
+                if atm is None:
+                    other = hcipy.FiniteAtmosphericLayer(layer.input_grid, 3.0 * 2.0 ** -42 * k * k, 10.0, 0, seed=1)
+                    atm = hcipy.MultiLayerAtmosphere([layer, other])
+                atm.Cn_squared = op[1] * k * k
+            elif op[0] == 'setl0':
+                route = op[2] if len(op) > 2 else 'L0'
+                if route == 'L0':
+                    layer.L0 = op[1]
+                elif route == 'outer_scale':
+                    layer.outer_scale = op[1]
+                else:
+                    if atm is None:
+                        other = hcipy.FiniteAtmosphericLayer(layer.input_grid, 3.0 * 2.0 ** -42 * k * k, 10.0, 0, seed=1)
+                        atm = hcipy.MultiLayerAtmosphere([layer, other])
+                    atm.outer_scale = op[1]
+            elif op[0] == 'setvel':
+                layer.velocity = np.array(op[1], dtype=float)
             else:
                 raise MachineryError('unknown op %r' % (op,))
         except ValueError:
@@ -102,7 +132,10 @@ def run_layer(case, layer):
         o['rng'] = rng_state(layer.rng)
         o['orig'] = rng_state(layer._original_rng)
         o['ext'] = list(ext)
-        if case['kind'] == 'infinite':
+        o['cn2'] = float(layer.Cn_squared)
+        o['L0'] = float(layer.L0)
+        o['vel'] = [float(x) for x in np.asarray(layer.velocity).ravel()]
+        if case['kind'] == 'infinite' and not (op[0] in ('evolve', 'sett') and len(op) > 2 and op[2] == 'q'):
             o['raw'] = np.array(layer._achromatic_screen, dtype=float)
         obs.append(o)
     return obs
@@ -143,28 +176,40 @@ class Oracle:
     def shape_class(self):
         return 'square' if self.case['nx'] == self.case['ny'] else 'non-square'
 
-    # reference: a freshly built layer with the same seed, driven through a time sequence
-    def fresh_screen(self, seq):
+    # reference: a freshly built layer with the same seed (and the parameters in force), driven through a time sequence
+    def fresh_screen(self, seq, par=None):
         seq = tuple(seq)
-        if seq not in self._fresh:
-            L = make_layer(self.case)
-            if self.kind == 'finite':
-                if seq:
-                    L.evolve_until(seq[-1])
-            else:
-                for t in seq:
-                    L.evolve_until(t)
-            self._fresh[seq] = np.array(L.phase_for(1).shaped, dtype=float)
-        return self._fresh[seq]
+        par = par if par is not None else (self.case['cn2'], self.case['L0'], tuple(self.case['vel']))
+        key = (par, seq)
+        if key in self._fresh:
+            return self._fresh[key]
+        if self.kind == 'finite':
+            L = make_layer(self.case, cn2=par[0], L0=par[1], vel=par[2])
+            if seq:
+                L.evolve_until(seq[-1])
+        else:
+            # one never-reset reference layer per parameter set; continued when the sequence extends the previous one
+            L, done = self._shadow.get(par, (None, None))
+            if L is None or tuple(seq[:len(done)]) != done:
+                L, done = make_layer(self.case, cn2=par[0], L0=par[1], vel=par[2]), ()
+            for t in seq[len(done):]:
+                L.evolve_until(t)
+            self._shadow[par] = (L, seq)
+        self._fresh[key] = np.array(L.phase_for(1).shaped, dtype=float)
+        return self._fresh[key]
 
     def check(self, obs, twin_obs, k):
         case = self.case
         dx, dy = case['dx'], case['dy']
-        vx, vy = case['vel']
+        self._shadow = {}
+        par = (case['cn2'], case['L0'], tuple(case['vel']))      # parameters in force since the last reset
+        cur = par                                                 # parameters stored in the layer now
+        other_c = 3.0 * 2.0 ** -42                                # the second layer of the MultiLayerAtmosphere
+        vx, vy = par[2]
         clock = 0.0
         real = 0          # realisation number: 0 = the one of the seed
         seq = []          # evolve times since the last reset
-        seen = {}         # (realisation, seq) -> screen
+        seen = {}         # (realisation, seq, L0, velocity) -> [(Cn^2, screen)]
         seg_reads = []    # reads of the current segment: (clock, phase1)
         where = '%s %s wind' % (self.shape_class(), self.wind_class())
         for i, o in enumerate(obs):
@@ -187,8 +232,30 @@ class Oracle:
                 clock = 0.0
                 seq = []
                 seg_reads = []
+                par = cur
+                vx, vy = par[2]
                 if op[1]:
                     real += 1
+            elif op[0] in SET_OPS:
+                if o['status'] != 'ok':
+                    route = op[2] if op[0] == 'setl0' and len(op) > 2 else ''
+                    self.fail('setter-raises-outer-scale' if route in ('outer_scale', 'multi') else 'setter-raises',
+                              '%s (%s) raised %s' % (op[0], {'outer_scale': 'layer.outer_scale = x', 'multi': 'MultiLayerAtmosphere.outer_scale = x'}.get(route, 'attribute'), o['status']))
+                    if (o['cn2'], o['L0'], tuple(o['vel'])) != cur:
+                        self.fail('setter', 'a setter that raised nevertheless changed the layer')
+                        return
+                    continue
+                want = ((op[1], cur[1], cur[2]) if op[0] == 'setcn2' else (cur[0], op[1], cur[2]) if op[0] == 'setl0' else
+                        (cur[0], cur[1], tuple(op[1])) if op[0] == 'setvel' else (o['cn2'], cur[1], cur[2]))
+                if (o['cn2'], o['L0'], tuple(o['vel'])) != want:
+                    self.fail('setter', 'after %r the layer reports Cn^2=%r L0=%r velocity=%r' % (op, o['cn2'], o['L0'], o['vel']))
+                if op[0] == 'setcn2m':
+                    total = cur[0] + other_c
+                    if not abs(o['cn2'] - cur[0] * op[1] / total) <= 1e-12 * o['cn2']:
+                        self.fail('setter', 'MultiLayerAtmosphere.Cn_squared = %r did not rescale the layer in proportion (got %r)' % (op[1], o['cn2']))
+                    other_c = other_c * op[1] / total
+                cur = want
+                self.cnt('setter %s' % op[0])
             if o['t'] != clock:
                 self.fail('clock', 'after %r the layer reports t=%r, expected %r' % (op, o['t'], clock))
             if op[0] != 'read':
@@ -196,6 +263,9 @@ class Oracle:
             if o['status'] != 'ok':
                 self.fail('raises', 'phase_for raised %s on a %s layer' % (o['status'], where))
                 return
+            if cur != par:
+                self.cnt('read with a parameter change pending (not judged)')
+                continue
             lam = float(op[1])
             s1 = o['phase1']
             scale = max(float(np.abs(s1).max()), 1e-300)
@@ -209,29 +279,45 @@ class Oracle:
                 if np.abs(tw - k * s1).max() > TOL * k * scale:
                     self.fail('strength', 'layer with %g x Cn^2 is not %g x the phase (max dev %.3g of %.3g)' % (
                         k * k, k, np.abs(tw - k * s1).max(), scale))
-            # --- replay: same realisation + same sequence of times => the same screen, bit for bit
-            key = (real, tuple(seq) if self.kind == 'infinite' else (clock,))
+            # --- replay: same realisation + same parameters + same sequence of times => the same screen, bit for bit;
+            #     the same with another Cn^2 => the screen times sqrt(Cn^2 ratio)
+            seqkey = tuple(seq) if self.kind == 'infinite' else (clock,)
             if real == 0:
-                ref = self.fresh_screen(seq)
+                ref = self.fresh_screen(seq, par)
                 if not np.array_equal(ref, s1):
-                    self.fail('replay', 'screen at t=%r after %d reset(s) differs from the screen of a freshly built layer '
-                              'with the same seed at that time (max dev %.3g of %.3g)' % (
-                                  clock, sum(1 for q in obs[:i] if q['op'][0] == 'reset'), np.abs(ref - s1).max(), scale))
+                    nres = sum(1 for q in obs[:i] if q['op'][0] == 'reset')
+                    nset = sum(1 for q in obs[:i] if q['op'][0] in SET_OPS)
+                    self.fail('replay-after-setter' if nset else 'replay',
+                              'screen at t=%r after %d reset(s) and %d parameter change(s) differs from the screen of a freshly built '
+                              'layer with the same seed and the current parameters at that time (max dev %.3g of %.3g)' % (
+                                  clock, nres, nset, np.abs(ref - s1).max(), scale))
                 self.cnt('replay vs fresh layer')
-            if key in seen:
-                if not np.array_equal(seen[key], s1):
-                    self.fail('replay', 'same realisation, same evolution times %r, different screen' % (key[1],))
-                self.cnt('replay vs earlier run')
+            key = (real, seqkey, par[1], par[2])
+            fresh_key = True
+            for (c0, scr) in seen.get(key, []):
+                fresh_key = False
+                if c0 == par[0]:
+                    if not np.array_equal(scr, s1):
+                        self.fail('replay', 'same realisation, same evolution times %r, different screen' % (seqkey[-3:],))
+                    self.cnt('replay vs earlier run')
+                    break
+                r = np.sqrt(par[0] / c0)
+                if np.abs(s1 - r * scr).max() > TOL * scale:
+                    self.fail('strength-setter', 'after Cn_squared was changed from %r to %r and reset(), the replayed screen at t=%r is not '
+                              'sqrt(ratio) = %.6g times the earlier one (max dev %.3g of %.3g)' % (c0, par[0], clock, r, np.abs(s1 - r * scr).max(), scale))
+                self.cnt('sqrt(Cn^2 new / Cn^2 old) vs earlier run')
             else:
-                for (r2, s2), scr in seen.items():
-                    if r2 != real and s2 == key[1] and np.abs(scr - s1).max() < 1e-3 * scale:
-                        self.fail('independent', 'reset(make_independent_realization=True) reproduced the previous realisation')
-                seen[key] = s1
+                if fresh_key:
+                    for (r2, s2, l2, v2), lst in seen.items():
+                        if r2 != real and s2 == seqkey and l2 == par[1] and v2 == par[2] and any(
+                                c0 == par[0] and np.abs(scr - s1).max() < 1e-3 * scale for c0, scr in lst):
+                            self.fail('independent', 'reset(make_independent_realization=True) reproduced the previous realisation')
+                seen.setdefault(key, []).append((par[0], s1))
             # --- rigid translation with the wind
             cx, cy = vx * clock, vy * clock
             pairs = []
             if self.kind == 'finite' and real == 0:
-                pairs.append((0.0, self.fresh_screen(())))
+                pairs.append((0.0, self.fresh_screen((), par)))
             pairs += seg_reads[:1] + seg_reads[-1:]
             for (t0, s0) in pairs:
                 if t0 == clock:
@@ -270,7 +356,7 @@ class Oracle:
             if self.kind == 'finite' and real == 0 and (cx != 0 or cy != 0):
                 # any displacement: the same seed on a grid displaced by -velocity*t shows orig(x - v t) at t=0
                 g2 = mkgrid(case['nx'], case['ny'], dx, dy).shifted(-np.array([cx, cy]))
-                L2 = make_layer(case, grid=g2, vel=[0.0, 0.0])
+                L2 = make_layer(case, grid=g2, vel=[0.0, 0.0], cn2=par[0], L0=par[1])
                 ref = np.array(L2.phase_for(1).shaped, dtype=float)
                 e = float(np.abs(ref - s1).max())
                 if e > TOL * scale:
@@ -307,7 +393,7 @@ def judge(case):
         k = float(case.get('k', 0) or 0)
         twin_obs = None
         if k:
-            twin_obs = run_layer(case, make_layer(case, cn2=case['cn2'] * k * k))
+            twin_obs = run_layer(case, make_layer(case, cn2=case['cn2'] * k * k), k=k)
         orc = Oracle(case)
         orc.check(obs, twin_obs, k)
     return orc.bad, obs, orc.counts
@@ -316,19 +402,33 @@ def judge(case):
 # ---------------------------------------------------------------------------------------------
 # model side of a layer history
 
-def layer_lines(case):
+def layer_lines(case, obs):
     p = 'C15 fin' if case['kind'] == 'finite' else 'C15 inf'
     if case['kind'] == 'finite':
-        lines = ['%s new %d %d %s %s %d' % (p, case['nx'], case['ny'], rat(case['vel'][0]), rat(case['vel'][1]), case['seed'])]
+        lines = ['%s new %d %d %s %s %s %s %d' % (p, case['nx'], case['ny'], rat(case['vel'][0]), rat(case['vel'][1]),
+                                                 rat(case['cn2']), rat(case['L0']), case['seed'])]
     else:
-        lines = ['%s new %d %d %s %s %s %s %d' % (p, case['nx'], case['ny'], rat(case['dx']), rat(case['dy']),
-                                                   rat(case['vel'][0]), rat(case['vel'][1]), case['seed'])]
+        lines = ['%s new %d %d %s %s %s %s %s %s %d' % (p, case['nx'], case['ny'], rat(case['dx']), rat(case['dy']),
+                                                       rat(case['vel'][0]), rat(case['vel'][1]), rat(case['cn2']),
+                                                       rat(case['L0']), case['seed'])]
     idx = []
-    for op in case['ops']:
+    for op, o in zip(case['ops'], obs):
         if op[0] in ('evolve', 'sett'):
-            idx.append(len(lines)); lines.append('%s evolve %s' % (p, rat(op[1])))
+            quiet = case['kind'] == 'infinite' and len(op) > 2 and op[2] == 'q'
+            idx.append(len(lines)); lines.append('%s %s %s' % (p, 'evolveq' if quiet else 'evolve', rat(op[1])))
         elif op[0] == 'reset':
             idx.append(len(lines)); lines.append('%s reset %d' % (p, 1 if op[1] else 0))
+        elif op[0] in SET_OPS and o['status'] != 'ok':
+            idx.append(None)        # refused by the implementation (reported by the oracle): the layer is unchanged
+        elif op[0] == 'setcn2':
+            idx.append(len(lines)); lines.append('%s setcn2 %s' % (p, rat(op[1])))
+        elif op[0] == 'setcn2m':
+            # MultiLayerAtmosphere rescales in floating point: the model is told the value the layer ended up with
+            idx.append(len(lines)); lines.append('%s setcn2 %s' % (p, rat(o['cn2'])))
+        elif op[0] == 'setl0':
+            idx.append(len(lines)); lines.append('%s setl0 %s' % (p, rat(op[1])))
+        elif op[0] == 'setvel':
+            idx.append(len(lines)); lines.append('%s setvel %s %s' % (p, rat(op[1][0]), rat(op[1][1])))
         else:
             idx.append(None)
     return lines, idx
@@ -362,6 +462,8 @@ def compare_layer(ctx, case, obs, out, idx):
         if [Fraction(x) for x in o['center']] != c or Fraction(o['t']) != Fraction(kv['t']):
             ctx.disagree(stream, dict(detail, impl='c=%r t=%r' % (o['center'], o['t'])),
                          key=('fin-clock' if case['kind'] == 'finite' else None)); return
+        if [Fraction(x) for x in o['vel']] != parse_rat_list(kv['v']) or [Fraction(o['cn2']), Fraction(o['L0'])] != parse_rat_list(kv['par']):
+            ctx.disagree(stream, dict(detail, impl='v=%r Cn^2=%r L0=%r' % (o['vel'], o['cn2'], o['L0']))); return
         rng_m.append((kv['rng'], kv['orig'])); rng_r.append((o['rng'], o['orig']))
         if case['kind'] == 'infinite':
             if o['op'][0] == 'reset':
@@ -370,7 +472,10 @@ def compare_layer(ctx, case, obs, out, idx):
                 hist = hist * 5 + WHERE_CODE[w]
             if int(kv['hist']) != hist:
                 ctx.disagree(stream, dict(detail, impl='extrusions %r (history code %d)' % (o['ext'], hist))); return
-            syms = kv['scr'].split(',')
+            if 'scr' not in kv:
+                continue
+            legend = kv['pars'].split(';')
+            syms = ['%s|%s' % (q.rsplit(':', 1)[0], legend[int(q.rsplit(':', 1)[1])]) for q in kv['scr'].split(',')]
             raw = o['raw']
             if len(syms) != raw.size:
                 ctx.disagree(stream, dict(detail, impl='screen size %d' % raw.size)); return
@@ -528,7 +633,67 @@ def gen_layer_case(rng, kind, big):
                 ops.append(['evolve', t - 0.5])        # backwards: must be refused without side effects
                 ops.append(['read', 1.0])
         if s + 1 < nseg:
-            ops.append(['reset', bool(rng.random() < 0.25)])
+            if rng.random() < 0.35:
+                # a parameter is changed on the existing layer, then the layer is reset
+                for _ in range(int(rng.choice([1, 1, 2]))):
+                    kind_ = str(rng.choice(['setcn2', 'setcn2', 'setcn2m', 'setl0', 'setvel']))
+                    if kind_ == 'setcn2':
+                        ops.append(['setcn2', float(rng.integers(1, 64)) * 2.0 ** -44 * float(rng.choice([1.0, 4.0, 0.25, 16.0]))])
+                    elif kind_ == 'setcn2m':
+                        ops.append(['setcn2m', float(rng.integers(1, 64)) * 2.0 ** -42])
+                    elif kind_ == 'setl0':
+                        ops.append(['setl0', float(rng.choice([3.0, 6.0, 12.0, 20.0])) * max(nx * dx, ny * dy) / 4.0,
+                                    str(rng.choice(['L0', 'L0', 'outer_scale', 'multi']))])
+                    else:
+                        ops.append(['setvel', gen_wind(rng, dx, dy)])
+                ops.append(['reset', bool(rng.random() < 0.15)])
+            else:
+                ops.append(['reset', bool(rng.random() < 0.25)])
+    case['ops'] = ops
+    return case
+
+
+def gen_late_case(rng, kind, style, big):
+    """time scales: a long run (large t0, large accumulated displacement) followed by many small steps.
+    'huge' (finite layer): 16..64 px per unit time for 512..2048 units, then steps of one pixel or a quarter pixel.
+    'fine': D = 16..64 px accumulated at t0 = 2^k, then N = 64..2048 equal steps per pixel (dt/t0 = 1/(D N))."""
+    nx, ny, dx, dy = gen_geometry(rng, False)
+    if kind == 'infinite':
+        nx, ny = min(nx, 10), min(ny, 10)
+    p, q = [(1, 0), (0, 1), (-1, 0), (0, -1), (1, 1), (1, -1), (2, 1), (-1, 2), (1, 2)][int(rng.integers(0, 9))]
+    case = {'kind': kind, 'nx': nx, 'ny': ny, 'dx': dx, 'dy': dy, 'seed': int(rng.integers(0, 2 ** 31)),
+            'cn2': float(rng.integers(1, 64)) * 2.0 ** -44, 'L0': 10.0 * max(nx * dx, ny * dy) / 4.0,
+            'k': float(rng.choice([0, 0, 2.0])), 'interp': bool(rng.random() < 0.5), 'style': 'late-' + style}
+    ops = [['read', 1.0]] if rng.random() < 0.5 else []
+    if style == 'huge':
+        u = float(rng.choice([16, 32, 64]))
+        t0 = float(2 ** int(rng.integers(9, 12)))
+        case['vel'] = [u * p * dx, u * q * dy]
+        ops += [['evolve', t0], ['read', 1.0]]
+        t = t0
+        for _ in range(int(rng.integers(3, 25 if not big else 60))):
+            t += (1.0 if rng.random() < 0.7 else 0.25) / u
+            ops.append(['evolve', t])
+            if rng.random() < 0.85:
+                ops.append(['read', float(rng.choice([1.0, 1.0, 0.5]))])
+        ops += [['reset', False], ['evolve', t], ['read', 1.0]]
+    else:
+        D = int(rng.choice([16, 32, 64]))
+        t0 = float(2 ** int(rng.integers(6, 13)))
+        N = int(rng.choice([64, 256, 1024, 2048]))
+        if kind == 'infinite' and not big and N * D > 70000 and rng.random() < 0.5:
+            N = 256
+        case['vel'] = [D * p * dx / t0, D * q * dy / t0]
+        dt = t0 / (D * N)
+        P = int(rng.choice([1, 1, 2]))
+        marks = set([1, 2, 3, N // 4, N // 2, N - 1, N, N + 1, N + N // 2, 2 * N])
+        ops += [['evolve', t0], ['read', 1.0]]
+        for i in range(1, N * P + 1):
+            if i in marks:
+                ops.append(['evolve', t0 + i * dt])
+                ops.append(['read', 1.0])
+            else:
+                ops.append(['evolve', t0 + i * dt, 'q'])
     case['ops'] = ops
     return case
 
@@ -561,6 +726,25 @@ DIRECTED = [
                                             ['evolve', 1.0], ['read', 1.0], ['reset', False], ['evolve', 1.0], ['read', 1.0]]),
     _layer('infinite', 12, 12, [0.25, 0.125], [['read', 1.0], ['evolve', 0.5], ['read', 1.0], ['evolve', 1.5], ['read', 1.0], ['evolve', 2.0], ['read', 1.0]], interp=True),
     _layer('infinite', 10, 7, [0.125, -0.25], [['read', 1.0], ['evolve', 1.0], ['read', 1.0], ['evolve', 3.0], ['read', 1.0], ['evolve', 4.0], ['read', 1.0]]),
+    # a parameter changed through its setter on an existing layer, then reset
+    _layer('infinite', 8, 6, [0.25, 0.0], [['evolve', 2.0], ['read', 1.0], ['setcn2', 2.0 ** -38], ['reset', False], ['read', 1.0],
+                                           ['evolve', 2.0], ['read', 1.0], ['setcn2m', 2.0 ** -39], ['reset', False], ['evolve', 2.0], ['read', 1.0]]),
+    _layer('finite', 8, 6, [0.0, 0.25], [['evolve', 2.0], ['read', 1.0], ['setcn2', 2.0 ** -38], ['reset', False], ['read', 1.0],
+                                         ['evolve', 2.0], ['read', 1.0], ['setl0', 4.0, 'outer_scale'], ['reset', False], ['evolve', 2.0], ['read', 1.0],
+                                         ['setvel', [0.25, 0.0]], ['reset', False], ['evolve', 2.0], ['read', 1.0]]),
+    _layer('infinite', 7, 9, [0.25, 0.25], [['evolve', 1.0], ['read', 1.0], ['setl0', 4.0, 'multi'], ['reset', False], ['evolve', 1.0], ['read', 1.0],
+                                            ['setvel', [0.0, -0.25]], ['reset', False], ['evolve', 1.0], ['read', 1.0]], k=2.0),
+    # time scales: long run, then steps of one pixel / a fraction of a pixel
+    _layer('finite', 8, 8, [16.0, 0.0], [['evolve', 2048.0], ['read', 1.0], ['evolve', 2048.015625], ['read', 1.0],
+                                         ['evolve', 2048.03125], ['read', 1.0], ['evolve', 2048.03515625], ['read', 1.0]]),
+    dict(_layer('finite', 8, 6, [0.0, 64 * 0.25 / 1024.0],
+                [['evolve', 1024.0], ['read', 1.0]] + [x for i in range(1, 2049) for x in (
+                    [['evolve', 1024.0 + i / 128.0], ['read', 1.0]] if i in (1, 2, 3, 512, 1024, 2047, 2048) else [['evolve', 1024.0 + i / 128.0, 'q']])]),
+         style='late-fine'),
+    dict(_layer('infinite', 6, 8, [64 * 0.25 / 1024.0, 0.0],
+                [['evolve', 1024.0], ['read', 1.0]] + [x for i in range(1, 2049) for x in (
+                    [['evolve', 1024.0 + i / 128.0], ['read', 1.0]] if i in (1, 2, 3, 512, 1024, 2047, 2048) else [['evolve', 1024.0 + i / 128.0, 'q']])],
+                interp=True), style='late-fine'),
     {'kind': 'noise', 'cls': 'fft', 'nx': 8, 'ny': 8, 'dx': 0.25, 'dy': 0.25, 'q': 1, 'L0': 10.0, 'seed': 3, 'shift': [0.25, 0.0]},
     {'kind': 'noise', 'cls': 'fft', 'nx': 2, 'ny': 3, 'dx': 1.0, 'dy': 1.0, 'q': 1, 'L0': 10.0, 'seed': 3, 'shift': [1.0, 0.0]},
     {'kind': 'noise', 'cls': 'fft', 'nx': 6, 'ny': 9, 'dx': 0.25, 'dy': 0.5, 'q': 2, 'L0': 10.0, 'seed': 3, 'shift': [0.5, 0.5]},
@@ -580,8 +764,13 @@ def handle(ctx, case, batch):
         bad, obs, counts = judge(case)
         orc = Oracle(case)
         nres = sum(1 for op in case['ops'] if op[0] == 'reset')
-        sig = (case['kind'], case['nx'], case['ny'], orc.wind_class(), nres, len(case['ops']), case['interp'] if case['kind'] == 'infinite' else None)
+        sig = (case['kind'], case.get('style'), case['nx'], case['ny'], orc.wind_class(), nres, len(case['ops']), case['interp'] if case['kind'] == 'infinite' else None,
+               tuple(sorted(set(op[0] for op in case['ops'] if op[0] in SET_OPS))))
         ctx.count('%s:%s %s' % (case['kind'], orc.shape_class(), orc.wind_class()))
+        if case.get('style'):
+            ctx.count('%s:%s' % (case['kind'], case['style']))
+            ctx.count('%s:late small steps' % case['kind'], sum(1 for op in case['ops'] if op[0] == 'evolve') - 1)
+        ctx.count('%s:parameter setters' % case['kind'], sum(1 for op in case['ops'] if op[0] in SET_OPS))
         ctx.count('%s:resets' % case['kind'], nres)
         ctx.count('%s:independent resets' % case['kind'], sum(1 for op in case['ops'] if op[0] == 'reset' and op[1]))
         if case['kind'] == 'infinite':
@@ -592,14 +781,14 @@ def handle(ctx, case, batch):
     for key, what in bad:
         ctx.violation(key, what, case)
     nontrivial = sig if (case['kind'] == 'noise' or any(op[0] == 'read' for op in case['ops'])) else None
-    ctx.case(case if len(ctx.samples) < 6 and ctx.evaluations % 7 == 0 else None, nontrivial_key=nontrivial)
+    ctx.case(case if len(ctx.samples) < 6 and ctx.evaluations % 7 == 0 and len(case.get('ops', [])) < 60 else None, nontrivial_key=nontrivial)
     if obs is None:
         return
     if case['kind'] == 'noise':
         lines = noise_lines(case, obs)
         batch.append((case, obs, lines, None))
     else:
-        lines, idx = layer_lines(case)
+        lines, idx = layer_lines(case, obs)
         batch.append((case, obs, lines, idx))
 
 
@@ -618,12 +807,15 @@ def run(ctx):
     ctx.assumptions += ['numpy Generator: deepcopy yields an equal independent stream; equal states give equal draws',
                         'float arithmetic on the generated dyadic pixel sizes, velocities and times is exact',
                         'FastFourierTransform / MatrixFourierTransform honour the zero of the grid they are built on (C01), used by the displaced-grid oracle']
-    n = ctx.scale(300, 10000)
+    n = ctx.scale(300, 8000)
     cases = [copy.deepcopy(c) for c in DIRECTED]
     big = ctx.tier == 'thorough'
     for i in range(n):
         r = i % 5
-        if r in (0, 1):
+        if i % 10 == 9:
+            j = (i // 10) % 3
+            cases.append(gen_late_case(ctx.rng, 'finite' if j < 2 else 'infinite', 'huge' if j == 0 else 'fine', big))
+        elif r in (0, 1):
             cases.append(gen_layer_case(ctx.rng, 'finite', big and i % 3 == 0))
         elif r in (2, 3):
             cases.append(gen_layer_case(ctx.rng, 'infinite', big and i % 3 == 0))
